@@ -288,6 +288,19 @@ def get_input_data(world: World, sim: SimRunner) -> InputData:
     return input_data
 
 
+def earliest_pending_step(sim: SimRunner) -> Optional[TieredTime]:
+    """
+    Return the earliest step of *sim* that is not finished yet: the step
+    that is currently being performed, if there is one, and the earliest
+    scheduled step otherwise.
+    """
+    if sim.current_step is not None:
+        return sim.current_step
+    if sim.next_steps:
+        return sim.next_steps[0]
+    return None
+
+
 def get_max_advance(world: World, sim: SimRunner, until: int) -> int:
     """
     Checks how far *sim* can safely advance its internal time during next step
@@ -295,8 +308,9 @@ def get_max_advance(world: World, sim: SimRunner, until: int) -> int:
     """
     ancs_next_steps: List[Time] = []
     for anc_sim, distance in sim.triggering_ancestors.items():
-        if anc_sim.next_steps:
-            ancs_next_steps.append((anc_sim.next_steps[0] + distance).time)
+        anc_step = earliest_pending_step(anc_sim)
+        if anc_step is not None:
+            ancs_next_steps.append((anc_step + distance).time)
 
     own_next_step = [sim.next_steps[0].time] if sim.next_steps else []
 
@@ -462,11 +476,11 @@ def get_avg_progress(sims: Dict[SimId, SimRunner], until: int) -> int:
 
 
 def advance_progress(sim: SimRunner, world: World):
-    pre_sim_induced_progress: List[TieredTime] = [
-        pre_sim.next_steps[0] + distance
-        for pre_sim, distance in sim.triggering_ancestors.items()
-        if pre_sim.next_steps
-    ]
+    pre_sim_induced_progress: List[TieredTime] = []
+    for pre_sim, distance in sim.triggering_ancestors.items():
+        pre_step = earliest_pending_step(pre_sim)
+        if pre_step is not None:
+            pre_sim_induced_progress.append(pre_step + distance)
 
     next_step_progress: List[TieredTime] = [sim.next_steps[0]] if sim.next_steps else []
     current_step_prog = [sim.current_step] if sim.current_step else []
